@@ -21,7 +21,7 @@ func (c06) Gen(r *simrt.Rand, idx int, tier string) *Case {
 	g := DefaultGen()
 	g.TieWeights = r.P(0.5)
 	c := &Case{}
-	subs := []string{"balance", "balance-ties", "balance-valued", "print", "checkwrite", "transcode", "weights", "returns", "infer", "import"}
+	subs := []string{"balance", "balance-ties", "balance-valued", "print", "checkwrite", "transcode", "weights", "returns", "infer", "import", "price-conflict"}
 	c.Sub = subs[idx%len(subs)]
 	switch c.Sub {
 	case "balance-ties":
@@ -30,6 +30,52 @@ func (c06) Gen(r *simrt.Rand, idx int, tier string) *Case {
 		return genInferCase(r, c, true)
 	case "import":
 		return genImportCase(r, c)
+	}
+	if c.Sub == "price-conflict" {
+		// two declarations for one pair on one day, in different files: whatever
+		// knut makes of them, it must make the same of them on every run
+		g.Prices = "tree"
+		g.MaxCom = 3
+		c.Gen = &g
+		for try := 0; try < 20; try++ {
+			c.J = Gen(r, g)
+			if len(c.J.Commodities()) >= 2 {
+				break
+			}
+		}
+		var prices []int
+		for i, d := range c.J.Dirs {
+			if d.Kind == "price" {
+				prices = append(prices, i)
+			}
+		}
+		if len(prices) == 0 {
+			return nil
+		}
+		for k := r.Range(1, 3); k > 0; k-- {
+			d := c.J.Dirs[prices[r.Intn(len(prices))]]
+			d.Price += Q(r.Range(1, 50000))
+			c.J.Dirs = append(c.J.Dirs, d)
+		}
+		// every directive in its own file
+		c.L = RandLayout(r, c.J, 8)
+		for len(c.L.Names) < 4 {
+			c.L = RandLayout(r, c.J, 8)
+		}
+		c.Today = "2030-01-01"
+		c.Cmd = []string{"balance", "transcode", "print"}[r.Intn(3)]
+		cs := c.J.Commodities()
+		switch c.Cmd {
+		case "balance":
+			c.Args = []string{"--color=false", "-a", "-v", cs[r.Intn(len(cs))], "--to", "2029-01-01", "--digits", "4"}
+		case "transcode":
+			c.Args = []string{"-v", cs[0]}
+		}
+		c.Scheds = []Sched{CanonSched()}
+		for i := 1; i < 8; i++ {
+			c.Scheds = append(c.Scheds, RandSched(r))
+		}
+		return c
 	}
 	valued := c.Sub == "balance-valued" || c.Sub == "transcode" || c.Sub == "weights" || c.Sub == "returns"
 	if valued {
